@@ -49,6 +49,7 @@ type Scenario struct {
 	Menu func(st *ref.State, bud Budget) []Op
 	// Params is a free-form description recorded in replays/evidence.
 	Params map[string]any
+	al     *Alphabet
 }
 
 // Transition is one explored edge, handed to monitors.
